@@ -266,3 +266,37 @@ mut("C14", "r4-sub-cancel-by-query", "database/subscription.go",
     "\t\tif sub == s {", "\t\tif sub.q == s.q {", "C14-R4|Subscription).Cancel", comment="reverts fix 313bd77")
 mut("C14", "r4-hook-cancel-by-query", "database/hook.go",
     "\t\tif hook == h {", "\t\tif hook.q == h.q {", "C14-R4|RegisteredHook).Cancel", comment="reverts fix 9fca7da")
+
+# ---- C04 -------------------------------------------------------------------
+mut("C04", "r1-default-before-user", "config/get.go",
+    "\tif option.ReleaseLevel <= getReleaseLevel() && option.activeValue != nil {\n\t\treturn option, option.activeValue\n\t}\n\n\tif option.activeDefaultValue != nil {\n\t\treturn option, option.activeDefaultValue\n\t}",
+    "\tif option.activeDefaultValue != nil {\n\t\treturn option, option.activeDefaultValue\n\t}\n\n\tif option.ReleaseLevel <= getReleaseLevel() && option.activeValue != nil {\n\t\treturn option, option.activeValue\n\t}", "C04-R1|getValueCache", canary=True)
+mut("C04", "r1-release-gate-inverted", "config/get.go",
+    "if option.ReleaseLevel <= getReleaseLevel() && option.activeValue != nil {", "if option.ReleaseLevel >= getReleaseLevel() && option.activeValue != nil {", "C04-R1|getValueCache", occurrence=1)
+mut("C04", "r1-releaselevel-default-wins", "config/release.go",
+    "\tif releaseLevelOption.activeDefaultValue != nil {\n\t\tvalue = releaseLevelOption.activeDefaultValue\n\t}\n\tif releaseLevelOption.activeValue != nil {\n\t\tvalue = releaseLevelOption.activeValue\n\t}",
+    "\tif releaseLevelOption.activeValue != nil {\n\t\tvalue = releaseLevelOption.activeValue\n\t}\n\tif releaseLevelOption.activeDefaultValue != nil {\n\t\tvalue = releaseLevelOption.activeDefaultValue\n\t}", "C04-R1|updateReleaseLevel", comment="reverts fix 9b51681")
+mut("C04", "r1-perspective-gate", "config/perspective.go",
+    "\tif pOption.option.ReleaseLevel > getReleaseLevel() {", "\tif pOption.option.ReleaseLevel >= getReleaseLevel() {", "C04-R1|getPerspectiveValueCache")
+mut("C04", "r2-value-before-flag", "config/get.go",
+    "\t\tif !valid.IsSet() {\n\t\t\tvalid = getValidityFlag()\n\t\t\toption, valueCache = getValueCache(name, option, OptTypeBool)", "\t\tif !valid.IsSet() {\n\t\t\toption, valueCache = getValueCache(name, option, OptTypeBool)\n\t\t\tvalid = getValidityFlag()", "C04-R2|GetAsBool$1 / flag before value")
+mut("C04", "r2-refresh-when-valid", "config/get.go",
+    "\treturn func() int64 {\n\t\tif !valid.IsSet() {", "\treturn func() int64 {\n\t\tif valid.IsSet() {", "C04-R2|GetAsInt$1")
+mut("C04", "r2-flag-not-kept", "config/get-safe.go",
+    "\t\tif !valid.IsSet() {\n\t\t\tvalid = getValidityFlag()\n\t\t\toption, valueCache = getValueCache(name, option, OptTypeString)", "\t\tif !valid.IsSet() {\n\t\t\t_ = getValidityFlag()\n\t\t\toption, valueCache = getValueCache(name, option, OptTypeString)", "C04-R2|fetched flag is kept")
+mut("C04", "r3-no-mutex", "config/get-safe.go",
+    "\treturn func() int64 {\n\t\tlock.Lock()\n\t\tdefer lock.Unlock()\n", "\treturn func() int64 {\n\t\tlock.Lock()\n\t\tlock.Unlock()\n", "C04-R3|GetAsInt$1")
+mut("C04", "r4-no-signal", "config/set.go",
+    "\t// finalize change, activate triggers\n\tsignalChanges()\n\n\treturn SaveConfig()", "\treturn SaveConfig()", "C04-R4|setConfigOption / successful return")
+mut("C04", "r4-signal-only-without-user-value", "config/set.go",
+    "\t// finalize change, activate triggers\n\tsignalChanges()\n\n\t// Do not save the configuration", "\t// finalize change, activate triggers\n\tif !option.IsSetByUser() {\n\t\tsignalChanges()\n\t}\n\n\t// Do not save the configuration", "C04-R4|setDefaultConfigOption / successful return")
+mut("C04", "r4-store-invalid", "config/set.go",
+    "\t\t\t\tvalueCache, err := validateValue(option, newValue)\n\t\t\t\tif err == nil {\n\t\t\t\t\toption.activeValue = valueCache\n\t\t\t\t} else {", "\t\t\t\tvalueCache, err := validateValue(option, newValue)\n\t\t\t\toption.activeValue = valueCache\n\t\t\t\tif err != nil {", "C04-R4|ReplaceConfig$1")
+mut("C04", "r4-invalidate-outside-lock", "config/set.go",
+    "\tvalidityFlagLock.Lock()\n\tvalidityFlag.SetTo(false)\n\tvalidityFlag = abool.NewBool(true)", "\tvalidityFlag.SetTo(false)\n\tvalidityFlagLock.Lock()\n\tvalidityFlag = abool.NewBool(true)", "C04-R4|invalidate under write lock")
+mut("C04", "r4-install-before-invalidate", "config/set.go",
+    "\tvalidityFlag.SetTo(false)\n\tvalidityFlag = abool.NewBool(true)\n\tvalidityFlagLock.Unlock()", "\told := validityFlag\n\tvalidityFlag = abool.NewBool(true)\n\tvalidityFlagLock.Unlock()\n\told.SetTo(false)", "C04-R4|signalChanges")
+mut("C04", "r4-foreign-writer", "config/option.go",
+    "func (option *Option) Export() (record.Record, error) {\n\toption.Lock()\n\tdefer option.Unlock()\n", "func (option *Option) Export() (record.Record, error) {\n\toption.Lock()\n\tdefer option.Unlock()\n\tif option.activeValue == option.activeDefaultValue {\n\t\toption.activeValue = nil\n\t}\n", "C04-R4|Export")
+mut("C04", "r5-safe-bool-wrong-type", "config/get-safe.go",
+    "\toption, valueCache := getValueCache(name, nil, OptTypeBool)", "\toption, valueCache := getValueCache(name, nil, OptTypeInt)", "C04-R5|(*safe).GetAsBool")
